@@ -2,6 +2,7 @@ import PMH.Props.C02
 import PMH.Proofs.PmhLaws
 import PMH.Proofs.PmhColl
 import PMH.Proofs.JpLaw
+import PMH.Proofs.MseLaw
 /-!
 # C01 — ProbMinHash estimates the probability-Jaccard index J_P
 
@@ -176,5 +177,32 @@ theorem JP_facts : (∀ (w : ι → ℝ), (∀ e, 0 ≤ w e) → 0 < ∑ e, w e 
   ⟨fun _ hw hp => JP_self hw hp, JP_indicator, fun _ _ hA hB => ⟨JP_nonneg hA, JP_le_one hA hB⟩⟩
 example : JP (ι := Fin 2) ![1, 2] ![2, 1] = 2 / 3 := JP_example
 end JP
+
+
+/-! ### the MSE clause, reduced to one named assumption (`Proofs/MseLaw.lean`)
+
+`MSE ≤ J_P(1−J_P)/m` holds as soon as the collision events of two different positions are non-positively
+correlated (Ertl 2020 proves this for ProbMinHash; it is the ONLY part of C01 not mechanised); with
+independent positions it is an equality; without the assumption it can fail (`mse_needs_the_assumption`). -/
+section MSE
+open MeasureTheory ProbabilityTheory PMH.MseLaw
+
+open Classical in
+theorem mse_bound_of_nonpositive_correlation {Ω : Type*} [MeasurableSpace Ω] (P : Measure Ω) [IsProbabilityMeasure P]
+    {m : ℕ} (hm : 0 < m) (C : Fin m → Set Ω) (hC : ∀ k, MeasurableSet (C k)) (p : ℝ)
+    (H1 : ∀ k, P.real (C k) = p)
+    (H2 : ∀ k k', k ≠ k' → cov[(C k).indicator (1 : Ω → ℝ), (C k').indicator (1 : Ω → ℝ); P] ≤ 0) :
+    ∫ ω, (((Finset.univ.filter fun k => ω ∈ C k).card : ℝ) / m - p) ^ 2 ∂P ≤ p * (1 - p) / m :=
+  mse_le_measure_cov P hm C hC p H1 H2
+
+theorem mse_needs_the_assumption :
+    (∀ _k : Fin 2, E (Finset.univ : Finset Bool) (fun ω => (ind (ω = true) : ℚ)) = 1 / 2) ∧
+    E (Finset.univ : Finset Bool) (fun ω => (ind (ω = true) : ℚ) * ind (ω = true)) = 1 / 2 ∧
+    E (Finset.univ : Finset Bool)
+      (fun ω => ((∑ _k : Fin 2, (ind (ω = true) : ℚ)) / (2 : ℕ) - 1 / 2) ^ 2) = 1 / 4 ∧
+    ¬ E (Finset.univ : Finset Bool)
+      (fun ω => ((∑ _k : Fin 2, (ind (ω = true) : ℚ)) / (2 : ℕ) - 1 / 2) ^ 2)
+        ≤ (1 / 2 : ℚ) * (1 - 1 / 2) / (2 : ℕ) := mse_counterexample
+end MSE
 
 end PMH.C01
